@@ -7,7 +7,7 @@ what every executed step must receive, and which workflow results are allowed.
 Schedule-dependent freedom is expressed with pattern nodes (Maybe, Choice, ANYSTR) that
 `match(pattern, actual)` understands.
 """
-from .model import (Lit, In, Ref, Call, Bin, Not, Expr, OneOf, OrDisabled, Opt, Program, Step, node_refs, walk_tree)
+from .model import (RawExpr, Lit, In, Ref, Call, Bin, Not, Expr, OneOf, OrDisabled, Opt, Program, Step, node_refs, walk_tree)
 
 AVAIL, IMPOSSIBLE, PENDING = "avail", "impossible", "pending"
 
@@ -338,6 +338,8 @@ class RefSem:
             if n.fn == "bindConstants":
                 return [{"item": it, "constant": args[1]} for it in args[0]]
             raise Unmodelled("function %s" % n.fn)
+        if isinstance(n, RawExpr):
+            raise Unmodelled("verbatim expression %s" % n.text)
         raise TypeError(n)
 
     def eval_tree(self, t):
